@@ -1,5 +1,6 @@
 // C01 correspondence harness: real asl Array / Stack / Queue behind the line protocol.
-// Line:  <t><c> <op> <args...>   t: i = int, s = String, c = Counted (heap payload, global live-instance counter)
+// Line:  <t><c> <op> <args...>   t: i = int, s = String, c = Counted (heap payload, global live-instance counter),
+//                                   n = Node { int v; Array<Node> kids; } (own small op set, container a only)
 //                                c: a = Array<T>, k = Stack<T>, q = Queue<T>
 // Six handle slots per (t,c); a slot holds a heap-allocated container object or nothing.
 // Index arguments are total: reduced modulo the current length (+1 where the end is a legal position).
@@ -236,11 +237,75 @@ template<class T> struct Tables {
 	}
 };
 
+// ---- an element type whose payload is itself an asl::Array: arguments can live inside an element of the same array
+struct Node {
+	int v; Array<Node> kids;
+	static long live;
+	Node(int x = 0) : v(x) { live++; }
+	Node(const Node& o) : v(o.v), kids(o.kids) { live++; }
+	Node& operator=(const Node& o) { v = o.v; kids = o.kids; return *this; }
+	~Node() { live--; }
+};
+long Node::live = 0;
+
+static std::string renderN(const Array<Node>& a, int depth)
+{
+	if (depth == 0) return "...";
+	std::string s;
+	for (int i = 0; i < a.length(); i++) {
+		if (i) s += ",";
+		s += str(a[i].v) + ":" + str(a[i].kids.rc()) + "[" + renderN(a[i].kids, depth - 1) + "]";
+	}
+	return s;
+}
+
+struct NodeTable {
+	Array<Node>* H[NS];
+	NodeTable() { for (int i = 0; i < NS; i++) H[i] = 0; }
+	void reset() { for (int i = 0; i < NS; i++) { delete H[i]; H[i] = 0; } }
+	static int slot(const std::string& t) { return (int)(num(t) % NS); }
+	std::string op(const Toks& t)
+	{
+		const std::string& op = t[1];
+		size_t n = t.size();
+		if (op == "reset" && n == 2) { reset(); return "ok"; }
+		if (n < 3) return "bad-op";
+		int h = slot(t[2]);
+		if (op == "new" && n == 3) { delete H[h]; H[h] = new Array<Node>(); return "ok"; }
+		if (op == "cp" && n == 4) { int g = slot(t[3]); if (!H[g]) return "skip"; Array<Node>* c = new Array<Node>(*H[g]); delete H[h]; H[h] = c; return "ok"; }
+		if (op == "getk" && n == 5) { int g = slot(t[3]); if (!H[g] || H[g]->length() == 0) return "skip";
+			Array<Node>* c = new Array<Node>((*H[g])[(int)(num(t[4]) % H[g]->length())].kids); delete H[h]; H[h] = c; return "ok"; }
+		if (!H[h]) return "skip";
+		Array<Node>& a = *H[h];
+		int len = a.length();
+		if (op == "drop" && n == 3) { delete H[h]; H[h] = 0; return "ok"; }
+		if (op == "app" && n == 4) { if (a.rc() > 1) return "skip"; a << Node((int)num(t[3])); return "ok"; }
+		if (len == 0) return "skip";
+		int j = (int)(num(t[3]) % len);
+		if (op == "kapp" && n == 5) { Array<Node>& k = a[j].kids; if (k.rc() > 1) return "skip"; k << Node((int)num(t[4])); return "ok"; }
+		if (op == "asgk" && n == 4) { a = a[j].kids; return "ok"; }
+		if (op == "apndk" && n == 4) { if (a.rc() > 1) return "skip"; a.append(a[j].kids); return "ok"; }
+		if (op == "copyk" && n == 4) { if (a.rc() > 1) return "skip"; a.copy(a[j].kids); return "ok"; }
+		if (op == "rem" && n == 4) { a.remove(j); return "ok"; }
+		return "bad-op";
+	}
+	std::string step(const Toks& t)
+	{
+		std::string r = op(t);
+		if (r == "bad-op" || t[1] == "reset") return r;
+		r += " |";
+		for (int i = 0; i < NS; i++) r += " " + (H[i] ? str(H[i]->length()) + "/" + str(H[i]->rc()) + "/" + renderN(*H[i], 6) : std::string("-"));
+		r += " | L" + str(Node::live);
+		return r;
+	}
+};
+static NodeTable TN;
+
 static Tables<int> TI;
 static Tables<String> TS;
 static Tables<Counted> TC;
 
-static void reset() { TI.reset(); TS.reset(); TC.reset(); }
+static void reset() { TI.reset(); TS.reset(); TC.reset(); TN.reset(); }
 
 static std::string step(const Toks& t)
 {
@@ -249,6 +314,7 @@ static std::string step(const Toks& t)
 	case 'i': return TI.step(t, false);
 	case 's': return TS.step(t, false);
 	case 'c': return TC.step(t, true);
+	case 'n': return t[0][1] == 'a' ? TN.step(t) : std::string("bad-op");
 	}
 	return "bad-op";
 }
@@ -257,6 +323,7 @@ int main()
 {
 	int r = run(reset, step);
 	reset();
+	if (Node::live != 0) { fprintf(stderr, "live Node objects at exit: %ld\n", Node::live); return 3; }
 	if (Counted::live != 0) { fprintf(stderr, "live Counted objects at exit: %ld\n", Counted::live); return 3; }
 	return r;
 }
